@@ -5,3 +5,88 @@ From AV Require Import Base.Util Model.Consumer Model.ConsumerLog Model.Consumer
 (* the fetch offset as it will be once the parked reply (if any) has been extracted *)
 Definition nxt (s : state) : Z :=
   match s_mblock s with Some (Some (offs, _)) => snd (extract (s_foff s) offs) | _ => s_foff s end.
+
+(* which request a reply event answers (cf. success_reply / start_accepted in Model/Consumer.v) *)
+Definition offset_accepted (s : state) : bool :=
+  match s_req s with Some (k, false) => (k =? R_OFFREQ) || (k =? R_OFFFETCH) | _ => false end.
+(* a failed fetch that makes the consumer re-resolve its position: OffsetOutOfRange with an auto_offset_reset policy *)
+Definition oor_reset (s : state) (fk : Z) : bool := fetch_accepted s && is_oor fk && is_some (reset_off (s_cf s)).
+(* the events that make the consumer send a request: an accepted start(), an accepted offset reply, the refetch timer *)
+Definition fetching_ev (e : event) (s : state) : bool :=
+  match e with
+  | EStart _ => is_none (s_startd s)
+  | EReqOk _ => offset_accepted s
+  | EFireRetry => rcall_active s
+  | _ => false
+  end.
+Definition is_fetch_out (o : output) : bool := match o with OFetch _ _ => true | _ => false end.
+
+(* ---------- monitor LOG: what reaches the processor against the partition log ----------
+   It looks at the offsets the consumer ASKS for (OFetch off), never at the model's fetch offset.
+   The position is (re)resolved - the only permitted discontinuities - by an accepted start(), by an accepted reply
+   to an offset / offset-fetch request, and by an OffsetOutOfRange failure under a reset policy; from then on
+   * every fetch request must ask for exactly the offset at which the extraction of the previous accepted reply
+     ended (l_nx): VIOLATION otherwise (a gap or a re-read);
+   * an accepted reply to the request for offset l_last contributes  fst (extract l_last offs)  (l_E, and FIFO's l_g);
+   * the processor must be handed non-empty prefixes of what was extracted and not yet handed on (monitor FIFO).
+   l_E is what was extracted since the last resolution (the current segment, which began at offset l_st), l_old what
+   was extracted before it since the accepted start(), l_D what the processor has received since that start(). *)
+Record glog := mkL {
+  l_last : Z;            (* offset of the last fetch request sent *)
+  l_nx : option Z;       (* next unread offset; None: the position has just been (re)resolved *)
+  l_st : Z;              (* offset of the first fetch request answered since the last resolution *)
+  l_E : list Z;
+  l_old : list Z;
+  l_g : list Z;
+  l_D : list Z
+}.
+Definition log0 : glog := mkL 0 None 0 [] [] [] [].
+
+Definition log_ev (gh : glog) (s : state) (e : event) : glog :=
+  match e with
+  | EStart _ => if is_none (s_startd s) then mkL (l_last gh) None 0 [] [] [] [] else gh
+  | EReqOk _ => if offset_accepted s then mkL (l_last gh) None (l_st gh) (l_E gh) (l_old gh) (l_g gh) (l_D gh) else gh
+  | EReqFail fk => if oor_reset s fk then mkL (l_last gh) None (l_st gh) (l_E gh) (l_old gh) (l_g gh) (l_D gh) else gh
+  | EFetchOk offs _ =>
+    if fetch_accepted s then
+      let x := extract (l_last gh) offs in
+      match l_nx gh with
+      | Some _ => mkL (l_last gh) (Some (snd x)) (l_st gh) (l_E gh ++ fst x) (l_old gh) (l_g gh ++ fst x) (l_D gh)
+      | None => mkL (l_last gh) (Some (snd x)) (l_last gh) (fst x) (l_old gh ++ l_E gh) (l_g gh ++ fst x) (l_D gh)
+      end
+    else gh
+  | _ => gh
+  end.
+
+Definition log_out (gh : glog) (o : output) : option glog :=
+  match o with
+  | OFetch off _ =>
+    match l_nx gh with
+    | Some n => if off =? n then Some (mkL off (l_nx gh) (l_st gh) (l_E gh) (l_old gh) (l_g gh) (l_D gh))
+                else None                                  (* VIOLATION: the consumer asks for another offset than the next unread *)
+    | None => Some (mkL off (l_nx gh) (l_st gh) (l_E gh) (l_old gh) (l_g gh) (l_D gh))
+    end
+  | OCallProc blk =>
+    match fifo_out (l_g gh) o with
+    | Some g' => Some (mkL (l_last gh) (l_nx gh) (l_st gh) (l_E gh) (l_old gh) g' (l_D gh ++ blk))
+    | None => None                                         (* VIOLATION: gap, repeat, reordering *)
+    end
+  | _ => Some gh
+  end.
+
+(* the honest broker along a run: every accepted fetch reply is an honest answer (Model/ConsumerLog.v) to the offset
+   the last fetch request asked for *)
+Definition last_fetch (last : Z) (o : list output) : Z :=
+  fold_left (fun a x => match x with OFetch off _ => off | _ => a end) o last.
+Fixpoint honest_run (log : list Z) (last : Z) (tr : list tstep) : Prop :=
+  match tr with
+  | [] => True
+  | (s, e, o, _) :: r =>
+    match e with EFetchOk offs _ => fetch_accepted s = true -> honest log last offs | _ => True end
+    /\ honest_run log (last_fetch last o) r
+  end.
+
+(* what LOG establishes when it accepts a run answered honestly from [log] *)
+Definition log_ok (log : list Z) (gh : glog) : Prop :=
+  l_D gh ++ l_g gh = l_old gh ++ l_E gh
+  /\ forall n, l_nx gh = Some n -> l_st gh <= n /\ l_E gh = seg (l_st gh) n log.
